@@ -740,7 +740,7 @@ var jsHandSources = []string{
 }
 
 // file names are arbitrary strings (AddTemplateString's label, any path): the header comment names the file
-var handNames = []string{"hand.soy", "dir/ü nter.soy", "a\nalert(1);//.soy", "we\\ird'\"*/.soy", "x\r.soy", "l\u2028s\u2029.soy", "</script>.soy"}
+var handNames = []string{"hand.soy", "dir/ü nter.soy", "a\nalert(1);//.soy", "we\\ird'\"*/.soy", "x\r.soy", "l\u2028s\u2029.soy", "</script>.soy", "bad\xff\xe2\x80\n\xed\xa0\x80.soy"}
 
 func genC14gen(g *G) {
 	n := g.N(600, 12000)
